@@ -41,15 +41,18 @@ def correspondence(ctx, batch):
     for _ in range(ctx.n(60, 800)):
         stages.stage_pipeline(batch, common.gen_inputs(rng, styled_p=0.1), reg, common.cmps_choice(rng),
                               parts=("process", "merge", "replaces"))
+    for _ in range(ctx.n(40, 600)):
+        samples, dict_fields = gen.gen_dict_union(rng)
+        stages.stage_generate(batch, samples, reg, dict_fields=dict_fields)
 
 
 def contains_union(t):
     return "union" in repr(t) or "opt" in repr(t)
 
 
-def check_input(inputs, cmps, registry):
+def check_input(inputs, cmps, registry, dict_fields=()):
     """returns a hit dict or None"""
-    reg, g = stages.build_registry(inputs, registry, cmps)
+    reg, g = stages.build_registry(inputs, registry, cmps, dict_fields)
     for m in reg.models:
         before = conv.enc_ty(m.type)
         bad = nfcheck.nf_violations(before)
@@ -79,8 +82,12 @@ def falsify(ctx):
     for i in range(len(focus) + n):
         inputs = focus[i][0] if i < len(focus) else common.gen_inputs(rng, styled_p=0.1)
         cmps = (focus[i][1] if i < len(focus) else None) or common.cmps_choice(rng)
+        dict_fields = ()
+        if i >= len(focus) and i % 10 == 0:
+            samples, dict_fields = gen.gen_dict_union(rng)          # dict-keys options: a mapping next to another kind
+            inputs = [("Root", samples)]
         try:
-            hit = check_input(inputs, cmps, registry)
+            hit = check_input(inputs, cmps, registry, dict_fields)
         except (ZeroDivisionError, stages.TooCostly):
             ctx.count("zero-division (two models with empty key sets): outside the property")
             continue
@@ -91,6 +98,7 @@ def falsify(ctx):
         ctx.sample({"inputs": inputs}, limit=2)
         if hit:
             hit["cmps"] = [stages.enc_cmp(c) for c in cmps]
+            hit["dict_fields"] = list(dict_fields)
             yield hit
 
 
@@ -106,7 +114,7 @@ def replay(ctx, hit):
             cmps.append(ModelFieldsNumberMatch(c[1]))
     inputs = [tuple(x) for x in hit["input"]]
     try:
-        return check_input(inputs, cmps, stages.make_registry())
+        return check_input(inputs, cmps, stages.make_registry(), hit.get("dict_fields", ()))
     except stages.TooCostly:
         raise
     except Exception as e:  # noqa
